@@ -41,6 +41,11 @@ fixed('C01', 'diffusionTermPolar2D ravels', 'R0 diffusionTermPolar2D: 2-D blocks
 fixed('C01', 'divergenceTermSpherical1D weights', 'R2 divergenceTermSpherical1D: rw*Fw and mid-point volume')
 fixed('C01', 'convectionTvdRHSSpherical3D uses the spherical metric', 'R3 convectionTvdRHSSpherical3D: cylindrical metric factors pasted')
 
+known('C10', 'G3', 'mesh.SphericalGrid3D._getCellVolumes[theta-weighted-by-dtheta/pi]',
+      "SphericalGrid3D._getCellVolumes weights the polar extent by dtheta/pi instead of (cos th1 - cos th2)/2: per-cell volumes differ from the "
+      "geometric shell-sector volume (the total over theta in [0,pi] is right, per cell and for partial theta ranges it is not). Not repaired: "
+      "tests/test_cell_volumes.py::test_spherical_grid_3d_slice_uneven pins the current value (expected 0.8 of the ball for theta in [0.1pi,0.9pi]).")
+
 exec(open(os.path.join(os.path.dirname(__file__), 'known_more.py')).read()) if os.path.exists(os.path.join(os.path.dirname(__file__), 'known_more.py')) else None
 json.dump(dict(findings=f), open('/verif/known_findings.json', 'w'), indent=1)
 print(len(f), 'entries')
